@@ -69,6 +69,11 @@ CONFIGS = [
     ("rsv1_live_mutant", "MC_Flurry", "MC_rsv1_live_mutant.cfg", {"C11"}, "Termination", "thorough", []),
     # an overfull bin in a short table: put -> treeify_bin -> try_presize(2n) across two resize generations
     ("ovf_live", "MC_Flurry", "MC_ovf_live.cfg", {"C11"}, "ok", "thorough", []),
+    ("rt3_live", "MC_Flurry", "MC_rt3_live.cfg", {"C11"}, "ok", "thorough", []),
+    ("tree3_live", "MC_Flurry", "MC_tree3_live.cfg", {"C11"}, "ok", "thorough", []),
+    ("it3_live", "MC_Flurry", "MC_it3_live.cfg", {"C11"}, "ok", "thorough", []),
+    ("list3_live", "MC_Flurry", "MC_list3_live.cfg", {"C11"}, "ok", "thorough", []),
+    ("tree1_live", "MC_Flurry", "MC_tree1_live.cfg", {"C11"}, "ok", "thorough", []),
     ("sizing", "Sizing", "Sizing.cfg", {"C14", "C10"}, "ok", "quick", []),
     ("reclaim", "Reclaim", "MC_Reclaim.cfg", {"C03", "C04"}, "ok", "quick", []),
     ("reclaim_unprotected", "Reclaim", "MC_Reclaim_unprotected.cfg", {"C03"}, "NoUseAfterFree", "quick", []),
